@@ -63,3 +63,71 @@ Theorem C05_reset_installs_state :
                   t_patch t' n = pm_get (s_patches st) n).
 Proof. exact reset_installs_state_consistent. Qed.
 Print Assumptions C05_reset_installs_state.
+
+(* ------------------------------------------------------------------------------------------
+   Whole-command theorems: what `stg undo` / `stg redo` do to the WORLD (Model/Cmd.v run_undo /
+   run_redo: open the stack, find_undo_state, reset_to_state, execute), composed from the
+   component theorems above.  Spec definitions in Model/UndoSpec.v; proofs in
+   Proofs/UndoStepProofs.v (+ UndoStepOpts.v).
+   ------------------------------------------------------------------------------------------ *)
+From StgV Require Import Model.UndoSpec Proofs.UndoStepProofs.
+
+(* `stg undo` on a stack whose newest log entry [so] was written by an ordinary operation puts
+   the stack back to the state [pst] recorded by the entry before it - the three lists, every
+   patch's commit, the head - moves the branch there, and appends (never rewrites): the new
+   entry's predecessor is [so] *)
+Theorem C05_undo_restores_logged_state :
+  forall w so st po pst hard w2,
+    Inv6 w -> prev_decreasing (w_objs w) ->
+    w_stack w = Some so -> state_of (w_objs w) so = Some st ->
+    logged_as_op (w_objs w) so ->
+    s_prev st = Some po -> state_of (w_objs w) po = Some pst ->
+    w_branch w = s_head st ->
+    run_undo w 1 hard = (w2, X0) ->
+    at_state w2 pst
+    /\ (exists so2 st2, w_stack w2 = Some so2 /\ state_of (w_objs w2) so2 = Some st2 /\ s_prev st2 = Some so).
+Proof. exact undo_restores_logged_state. Qed.
+Print Assumptions C05_undo_restores_logged_state.
+
+(* ... and `stg redo` after that undo brings back exactly the state the undo took away *)
+Theorem C05_redo_restores_undone_state :
+  forall w so st po pst hard hard' w2 w3,
+    Inv6 w -> prev_decreasing (w_objs w) ->
+    w_stack w = Some so -> state_of (w_objs w) so = Some st ->
+    logged_as_op (w_objs w) so ->
+    s_prev st = Some po -> state_of (w_objs w) po = Some pst ->
+    w_branch w = s_head st ->
+    run_undo w 1 hard = (w2, X0) ->
+    run_redo w2 1 hard' = (w3, X0) ->
+    at_state w3 st.
+Proof. exact redo_restores_undone_state. Qed.
+Print Assumptions C05_redo_restores_undone_state.
+
+(* for EVERY stg command other than undo / redo (26 modelled commands): if it succeeds and
+   recorded exactly one new entry on top of the old log, a following `stg undo` restores the
+   stack the command found *)
+Theorem C05_undo_undoes_step :
+  forall lower_s, LowerOK lower_s ->
+  forall w c w1 so0 st0 so1 st1 hard w2,
+    Inv6 w -> prev_decreasing (w_objs w) ->
+    in_scope c = true -> logs_plain_op c = true ->
+    w_stack w = Some so0 -> state_of (w_objs w) so0 = Some st0 ->
+    step lower_s w c = (w1, X0) ->
+    w_stack w1 = Some so1 -> state_of (w_objs w1) so1 = Some st1 ->
+    s_prev st1 = Some so0 ->
+    run_undo w1 1 hard = (w2, X0) ->
+    at_state w2 st0.
+Proof. exact undo_undoes_step. Qed.
+Print Assumptions C05_undo_undoes_step.
+
+(* the hypotheses are satisfiable: a world reached by commands on which undo really succeeds *)
+Theorem C05_undo_step_nonvacuous :
+  exists w so st po pst w2,
+    Inv6 w /\ prev_decreasing (w_objs w)
+    /\ w_stack w = Some so /\ state_of (w_objs w) so = Some st
+    /\ logged_as_op (w_objs w) so
+    /\ s_prev st = Some po /\ state_of (w_objs w) po = Some pst
+    /\ w_branch w = s_head st
+    /\ run_undo w 1 false = (w2, X0).
+Proof. exact undo_step_nonvacuous. Qed.
+Print Assumptions C05_undo_step_nonvacuous.
